@@ -57,9 +57,10 @@ theorem rows_fit_widths {V : Type} (P : Params V) (L : Layout) (hL : L.Pos) (d0 
   obtain ⟨h1, h2, h3, h4, h5⟩ := hw r hr ty a b hf
   exact ⟨h1, h2, h3, beBytes_length _ _, beBytes_length _ _, h4, h5⟩
 
-/-- **C10, the builder never fails** on a page list that fits the reader's object limit:
+/-- **C10, the builder never fails** on a page list that fits the reader's object limit (and whose catalog reads
+    back as a catalog: `L.typed`, the typed reload of the trailer at the end of `save`):
     no promise stays open, every value is serialisable, the catalog is there. -/
-theorem build_total (L : Layout) (hL : L.Pos) (cached : Bool) (pages : List (PageSpec A R C)) (info : Option I)
+theorem build_total (L : Layout) (hL : L.Pos) (ht : L.typed = true) (cached : Bool) (pages : List (PageSpec A R C)) (info : Option I)
     (hsize : 3 * pages.length + 5 ≤ MAX_ID) : ∃ d' i, build L cached pages info = .ok (d', i) := by
   obtain ⟨d, hp, hpr⟩ := prepare_spec cached pages info
   have hb := emptyDoc_ok (A := A) (R := R) (C := C) (I := I) cached d.tr hpr.tr_prev
@@ -77,7 +78,7 @@ theorem build_total (L : Layout) (hL : L.Pos) (cached : Bool) (pages : List (Pag
       · exact hpr.all_pending j (by omega) hlt
     · obtain ⟨t, ht⟩ := hpr.root_pending
       exact ⟨_, resolve_changed _ _ _ 0 ht⟩
-  obtain ⟨d', i, hs⟩ := save_succeeds params L hL _ d [] hb hpr.inv hsv (by rw [hpr.refs_len]; omega)
+  obtain ⟨d', i, hs⟩ := save_succeeds params L hL ht _ d [] hb hpr.inv hsv (by rw [hpr.refs_len]; omega)
   exact ⟨d', i, by simp [build, hp, hs]⟩
 
 /-- **C10, "the same number of pages in the same order with equal … "** in the document the builder
@@ -189,7 +190,7 @@ theorem build_valid (L : Layout) (cached : Bool) (pages : List (PageSpec A R C))
 /-! ## Non-vacuity: a two-page document with an info dictionary -/
 
 def samplePages : List (PageSpec Nat Nat Nat) := [⟨10, 20, 30⟩, ⟨11, 21, 31⟩]
-def L9 : Layout := ⟨fun id => 40 + id, fun _ => 90, fun _ => 25⟩
+def L9 : Layout := ⟨fun id => 40 + id, fun _ => 90, fun _ => 25, true⟩
 
 example : (match build L9 false samplePages (some 5) with
     | .ok (d, i) =>
@@ -245,7 +246,7 @@ theorem build_bytes_reload (fmt : R → List UInt8) (env : Env R) (hd : env.decr
     (dec : Dict R → List UInt8 → Out (List UInt8)) (hdec : NoFilter dec) (pages : List (PageB R)) (info : Option (Prim R))
     (hn : pages.length ≤ 1000000) (hp : ∀ p ∈ pages, PageOK fmt env.parseReal p)
     (hinfo : ∀ v, info = some v → OKVal fmt env.parseReal v)
-    (b' : BDoc R) (i : SaveInfo) (hs : saveB fmt (prepared fmt pages info) = (b', .ok i))
+    (b' : BDoc R) (i : SaveInfo) (hs : saveB fmt true (prepared fmt pages info) = (b', .ok i))
     (hsmall : b'.bytes.length ≤ fileMax) (hpf : 3 * b'.bytes.length ≤ pfuel) (rfuel : Nat) :
     buildB fmt pages info = .ok b'.bytes ∧
     ∃ t T, openB env pfuel dec 2 b'.bytes = .ok (0, t, T) ∧ t.length = i.size + 1 ∧
@@ -253,16 +254,14 @@ theorem build_bytes_reload (fmt : R → List UInt8) (env : Env R) (hd : env.decr
       (∀ id v g, chLookup (prep (prepared fmt pages info).doc).st2.changes id = some (v, g) →
         ∃ o, resolveB env pfuel dec (rfuel + 2) b'.bytes 0 t id = .ok o ∧ Denotes b'.bytes o v) := by
   have hmono : (prepared fmt pages info).bytes.length ≤ b'.bytes.length := by
-    rcases (saveB_cases fmt _ _ _ hs).2.2 with ⟨_, _, hbts⟩ | ⟨hno, _⟩
-    · rw [hbts]; simp
-    · exact absurd rfl (hno i)
+    rw [(saveB_ok_iff fmt true _ _ i hs).2.2]; simp
   have h1 := hinv_prepared fmt env hd pfuel dec hdec pages info hn hp hinfo (by omega) (by omega)
-  have bk := saveB_backend fmt _ [] _ b' i (baseOK_empty info _) h1.inv h1.rep.len hs
+  have bk := saveB_backend fmt _ [] _ b' i (baseOK_empty info _) h1.inv h1.rep.len true (committedB_of_ok fmt true _ _ i hs)
   have hsecs : b'.doc.st.secs.length + 1 ≤ 2 := by
     rw [bk.secs, (prepared_backend fmt pages info).2.1]; simp
   refine ⟨by simp [buildB, hs], ?_⟩
   exact C09Bytes.reload_sees_pending_bytes fmt env hd pfuel dec hdec _ _ [] (baseOK_empty info _)
-    (baseVals_empty fmt env.parseReal info _ hinfo hn) h1 b' i hs hsmall hpf 2 hsecs rfuel
+    (baseVals_empty fmt env.parseReal info _ hinfo hn) h1 b' i true hs hsmall hpf 2 hsecs rfuel
 
 /-- **C10 at byte level, "reload with the same pages".** In the file `PdfBuilder::build` returns, read through the
     byte-level open path and resolver: `/Root` of the trailer (object `3n + 2`) is the catalog, whose `/Pages` (object
@@ -273,7 +272,7 @@ theorem build_bytes_pages (fmt : R → List UInt8) (env : Env R) (hd : env.decry
     (dec : Dict R → List UInt8 → Out (List UInt8)) (hdec : NoFilter dec) (pages : List (PageB R)) (info : Option (Prim R))
     (hn : pages.length ≤ 1000000) (hp : ∀ p ∈ pages, PageOK fmt env.parseReal p)
     (hinfo : ∀ v, info = some v → OKVal fmt env.parseReal v)
-    (b' : BDoc R) (i : SaveInfo) (hs : saveB fmt (prepared fmt pages info) = (b', .ok i))
+    (b' : BDoc R) (i : SaveInfo) (hs : saveB fmt true (prepared fmt pages info) = (b', .ok i))
     (hsmall : b'.bytes.length ≤ fileMax) (hpf : 3 * b'.bytes.length ≤ pfuel) (rfuel : Nat) :
     ∃ t T, openB env pfuel dec 2 b'.bytes = .ok (0, t, T) ∧
       dictGet T kRoot = some (.ref (3 * pages.length + 2) 0) ∧
@@ -288,9 +287,7 @@ theorem build_bytes_pages (fmt : R → List UInt8) (env : Env R) (hd : env.decry
         (∃ o, resolveB env pfuel dec (rfuel + 2) b'.bytes 0 t (pages.length + 3 + 2 * k) = .ok o ∧
           Denotes b'.bytes o (contentVal p.content)) := by
   have hmono : (prepared fmt pages info).bytes.length ≤ b'.bytes.length := by
-    rcases (saveB_cases fmt _ _ _ hs).2.2 with ⟨_, _, hbts⟩ | ⟨hno, _⟩
-    · rw [hbts]; simp
-    · exact absurd rfl (hno i)
+    rw [(saveB_ok_iff fmt true _ _ i hs).2.2]; simp
   have hb0 := baseOK_empty info pages.length
   have h1 := hinv_prepared fmt env hd pfuel dec hdec pages info hn hp hinfo (by omega) (by omega)
   have pf := prep_facts _ (prepared fmt pages info).doc [] hb0 h1.inv
@@ -312,7 +309,7 @@ theorem build_bytes_valid (fmt : R → List UInt8) (env : Env R) (hd : env.decry
     (dec : Dict R → List UInt8 → Out (List UInt8)) (hdec : NoFilter dec) (pages : List (PageB R)) (info : Option (Prim R))
     (hn : pages.length ≤ 1000000) (hp : ∀ p ∈ pages, PageOK fmt env.parseReal p)
     (hinfo : ∀ v, info = some v → OKVal fmt env.parseReal v)
-    (b' : BDoc R) (i : SaveInfo) (hs : saveB fmt (prepared fmt pages info) = (b', .ok i))
+    (b' : BDoc R) (i : SaveInfo) (hs : saveB fmt true (prepared fmt pages info) = (b', .ok i))
     (hsmall : b'.bytes.length ≤ fileMax) (hpf : 3 * b'.bytes.length ≤ pfuel) :
     (∃ rev, b'.bytes = headerBytes ++ rev) ∧
     (i.rows.length = i.xid + 1 ∧ i.xid + 1 ≤ i.size) ∧
@@ -328,18 +325,17 @@ theorem build_bytes_valid (fmt : R → List UInt8) (env : Env R) (hd : env.decry
       dictGet info' kwLength = some (.int (data.length : Int)) ∧
       ∃ off txt rest, SpellsStream env.parseReal info' data txt ∧ b'.bytes.drop off = objFrame j g (txt ++ [10]) ++ rest) := by
   have hmono : (prepared fmt pages info).bytes.length ≤ b'.bytes.length := by
-    rcases (saveB_cases fmt _ _ _ hs).2.2 with ⟨_, _, hbts⟩ | ⟨hno, _⟩
-    · rw [hbts]; simp
-    · exact absurd rfl (hno i)
+    rw [(saveB_ok_iff fmt true _ _ i hs).2.2]; simp
   have hb0 := baseOK_empty info pages.length
   have hv0 := baseVals_empty fmt env.parseReal info pages.length hinfo hn
   have h1 := hinv_prepared fmt env hd pfuel dec hdec pages info hn hp hinfo (by omega) (by omega)
   obtain ⟨hpb, _, _, hstart, _⟩ := prepared_backend fmt pages info
-  obtain ⟨s1, hids, _⟩ := saveB_cases fmt _ _ _ hs
-  have hLpos := layoutOf_pos fmt (prepared fmt pages info)
-  have bk := saveB_backend fmt _ [] _ b' i hb0 h1.inv h1.rep.len hs
-  have hbd := bounds_of_save fmt env.parseReal _ _ hLpos _ _ b'.doc [] i hb0 h1.inv s1 hv0 (by have := bk.xpos_le; omega)
-  have sb := saveB_spec fmt env.parseReal _ [] _ b' i hb0 h1.inv h1.rep.len hs hbd
+  obtain ⟨s1, hids, _⟩ := saveB_ok_iff fmt true _ _ i hs
+  have hLpos := layoutOf_pos fmt true (prepared fmt pages info)
+  have bk := saveB_backend fmt _ [] _ b' i hb0 h1.inv h1.rep.len true (committedB_of_ok fmt true _ _ i hs)
+  have hbd := bounds_of_save fmt env.parseReal _ _ hLpos _ _ b'.doc [] i hb0 h1.inv (committed_of_ok _ _ _ _ _ s1)
+    (save_tr_eq _ _ _ _ _ [] i hb0 h1.inv s1) hv0 (by have := bk.xpos_le; omega)
+  have sb := saveB_spec fmt env.parseReal _ [] _ b' i hb0 h1.inv h1.rep.len true (committedB_of_ok fmt true _ _ i hs) hbd
   have sh := save_shape _ _ hLpos _ _ b'.doc [] i hb0 h1.inv s1
   have hi' := inv_save_ok _ _ hLpos _ _ b'.doc [] i hb0 h1.inv s1
   have hidsP : (prepared fmt pages info).ids = builderIds := h1.ids
